@@ -57,9 +57,7 @@ func newStack(p *SPlan, noUp bool, o *sim.Outcome) *stack {
 	now := time.Now().Unix()
 	s.model = shimmodel.State{NoUp: noUp}
 	for _, r := range p.Init {
-		if err := s.ref.DirectAdd(s.cat.added(r, 0)); err != nil {
-			o.Fail("harness.setup", "init_add", 0, "%v", err)
-		}
+		s.directAdd(r, o)
 		s.model.Add(s.cat.ident(r, 0, now), now)
 	}
 	s.a, s.b = net.Pipe()
@@ -72,8 +70,29 @@ func newStack(p *SPlan, noUp bool, o *sim.Outcome) *stack {
 		}
 		o.Fault("upstream/" + fault)
 	}
+	s.peer.OnSlow = func(kind string, secs int64) { o.Fault("upstream_slow_reply"); o.Probe("slow_reply/" + kind) }
 	go func() { s.peer.Serve(s.b); close(s.done) }()
 	return s
+}
+
+// directAdd puts a role into the reference agent behind the shim's back (listing-only for security keys).
+func (s *stack) directAdd(r string, o *sim.Outcome) bool {
+	if s.cat.noSign(r) {
+		pub := s.cat.pub(r)
+		comment := "key " + r
+		var cert *ssh.Certificate
+		if s.cat.isCert(r) {
+			cert = s.cat.cert(r)
+			comment = s.cat.certs[r].Comment
+		}
+		s.ref.DirectAddListing(pub.Type(), pub.Marshal(), comment, cert)
+		return true
+	}
+	if err := s.ref.DirectAdd(s.cat.added(r, 0)); err != nil {
+		o.Fail("harness.setup", "direct_add", 0, "%v", err)
+		return false
+	}
+	return true
 }
 
 func (s *stack) stop() {
@@ -197,6 +216,24 @@ type obsList struct {
 	ok     bool
 }
 
+// comparator returns the ordering function a caller may pass as Option.PubKeyComp; whatever the order, the
+// set of listed identities is the same.
+func comparator(kind string) func(x, y ssh.PublicKey) bool {
+	switch kind {
+	case "asc":
+		return func(x, y ssh.PublicKey) bool { return bytes.Compare(x.Marshal(), y.Marshal()) < 0 }
+	case "desc":
+		return func(x, y ssh.PublicKey) bool { return bytes.Compare(x.Marshal(), y.Marshal()) > 0 }
+	case "certfirst":
+		return func(x, y ssh.PublicKey) bool {
+			return strings.Contains(x.Type(), "-cert-") && !strings.Contains(y.Type(), "-cert-")
+		}
+	case "never":
+		return func(x, y ssh.PublicKey) bool { return false }
+	}
+	return nil
+}
+
 func runHistory(p *SPlan, noUp bool, o *sim.Outcome, sigParts *[]string) []obsList {
 	s := newStack(p, noUp, o)
 	defer s.stop()
@@ -208,7 +245,7 @@ func runHistory(p *SPlan, noUp bool, o *sim.Outcome, sigParts *[]string) []obsLi
 	var err error
 	cres := s.call(func() error {
 		var e error
-		s.shim, e = shimagent.VerifNewFromConn(s.a, shimagent.Option{NoUpstream: noUp})
+		s.shim, e = shimagent.VerifNewFromConn(s.a, shimagent.Option{NoUpstream: noUp, PubKeyComp: comparator(p.Comp)})
 		return e
 	})
 	err = cres.err
@@ -269,7 +306,7 @@ func runHistory(p *SPlan, noUp bool, o *sim.Outcome, sigParts *[]string) []obsLi
 			}
 			continue
 		case "upadd":
-			if err := s.ref.DirectAdd(c.added(st.Role, 0)); err == nil {
+			if s.directAdd(st.Role, o) {
 				saveLocked := m.Locked
 				saveUp := m.UpLocked
 				m.Locked, m.UpLocked = false, false
@@ -355,6 +392,9 @@ func runHistory(p *SPlan, noUp bool, o *sim.Outcome, sigParts *[]string) []obsLi
 			}
 			_ = signKeyRole
 		case "add":
+			if c.noSign(st.Role) {
+				continue // no private key to hand over: such identities only reach the agent directly
+			}
 			ak := c.added(st.Role, uint32(st.N))
 			ak.ConfirmBeforeUse = st.Flags == 1
 			res = s.call(func() error { return s.shim.Add(ak) })
